@@ -1198,7 +1198,7 @@ def _inline_locals(fnode):
 
     import copy
 
-    return norm(Sub().visit(copy.deepcopy(ret[-1].value)))
+    return norm(Sub().visit(ast.parse(norm(ret[-1].value), mode="eval").body))  # clone without parent links (deepcopy would copy the whole module through them)
 
 
 def f22_fixed_tools(ctx, repo):
